@@ -172,6 +172,57 @@ func main() {
 	b[0] = 'x'
 	print(s, " ", string(b), " ", len(s))
 }`},
+		{name: "func-values-package-state", program: `
+var counter = ` + K + `
+var seen = []int{}
+func incr(d int) { counter += d; seen = append(seen, d) }
+func get() int { return counter }
+func main() {
+	n := h.In()
+	f := incr
+	g := get
+	f(n)
+	f(` + M + `)
+	fs := []func(int){incr, f}
+	for _, x := range fs { x(1) }
+	print(g(), " ", counter, " ", len(seen))
+}`},
+		{name: "func-values-to-native", program: `
+var total = ` + K + `
+func add(x int) int { total += x; return total }
+func twice(x int) int { return add(x) + add(x) }
+func main() {
+	n := h.In()
+	print(h.Apply(add, n), " ", h.Apply(twice, ` + M + `), " ", total, " ")
+	print(h.Fold([]int{1, n}, func(a, b int) int { return add(a) + b }))
+}`},
+		{name: "method-values", program: `
+var acc = h.NewAcc()
+func main() {
+	n := h.In()
+	local := h.NewAcc()
+	f, g := acc.Add, local.Add
+	f(n)
+	g(` + K + `)
+	f(g(` + M + `))
+	h2 := acc.Get
+	print(h2(), " ", local.Get(), " ", h.Apply(f, 1))
+}`},
+		{name: "closures-over-package-state", program: `
+var base = ` + K + `
+func adder(k int) func(int) int { return func(x int) int { base += k; return base + x } }
+var plus = adder(` + M + `)
+func main() {
+	n := h.In()
+	a := adder(n)
+	print(a(1), " ", plus(2), " ", a(3), " ", base)
+}`},
+		{name: "template-func-values", template: `{% var t = ` + K + ` %}{%%
+	bump := func(d int) int { t += d; return t }
+	g := bump
+	g(n)
+	r := Apply(g, ` + M + `)
+%%}{{ t }} {{ r }} {{ Apply(bump, 1) }}`},
 		{name: "template-vars", template: `{% var t = 0 %}{% for i := 0; i < ` + K + `; i++ %}{% t += n + i %}{% end %}[{{ n }}|{{ s }}|{{ t }}|{{ Add3(n, ` + M + `, 1) }}]`},
 		{name: "template-macros", template: `{% macro Row(a int, b string) %}<{{ a }}:{{ b }}>{% end %}{% for i, c := range s %}{{ Row(n+i, string(c)) }}{% end %}{{ Row(` + K + `, s) }}`},
 		{name: "template-code", template: `{%%
@@ -195,6 +246,7 @@ func isoDecls(in func(env native.Env) int) native.Declarations {
 		"Itoa":  func(n int) string { return fmt.Sprint(n) },
 		"SumV":  func(xs ...int) int { t := 0; for _, x := range xs { t += x }; return t },
 		"Apply": func(f func(int) int, x int) int { return f(x) },
+		"NewAcc": func() *Acc { return &Acc{} },
 		"Fold": func(xs []int, f func(a, b int) int) int {
 			t := 0
 			for _, x := range xs {
@@ -204,6 +256,12 @@ func isoDecls(in func(env native.Env) int) native.Declarations {
 		},
 	}
 }
+
+// Acc is a native type with methods, for method values.
+type Acc struct{ v int }
+
+func (a *Acc) Add(x int) int { a.v += x; return a.v }
+func (a *Acc) Get() int      { return a.v }
 
 type inKey struct{}
 
